@@ -90,6 +90,8 @@ def main():
                 continue
             if W != 2 and c.name.startswith('usesite/') and hash_name(c.name) % 3 != W % 3:
                 continue
+            if W == 8 and c.name.startswith(('usesite/', 'oppos/', 'seq/nested-', 'seq/string-index', 'seq/vla-', 'seq/packed', 'seq/const-cast')):
+                continue        # product families run at 16/24/32 bit: at 64 bit a dozen of their obligations (symbolic index scaling, %) came back `unknown`
             if W != 2 and ('write-int' in c.name or 'writeln-int' in c.name):
                 continue        # write(int) of a symbolic value does not bit-blast above 16 bits (C17 treats it with lemmas)
             tasks.append(case_to_task(c.with_(word=W, stack=96), max_steps=20000, stack_garbage=not quick, vm_wall=120,
@@ -101,7 +103,7 @@ def main():
     rep.functions_encoded = ['emitted code of CodeGen.gen_func/gen_block/gen_stmts/push_expr/eval_expr/eval_func_call/lookup_var/make_global/array_lookup/array_assignment + stdlib routines used']
     rep.bounds = dict(word_sizes=widths, stack_words=96, array_lengths='0..3 (concrete), contents symbolic',
                       instructions_per_path=20000, loops='trip counts bounded by the templates (<= 4)',
-                      outside='programs outside the families; time travel (C02); tight stacks (C04/C18); write(int) formatting (C17)')
+                      outside='the product families (use-site matrix, operator positions, string-index matrix) at 64 bit; programs outside the families; time travel (C02); tight stacks (C04/C18); write(int) formatting (C17)')
     rep.assumptions = ['Sphinx machine model (DESIGN section 3); div/mod floor', 'typed AST (overload choice, inserted casts, folded constants) taken from the real front end',
                        'outputs that depend on uninitialised array elements are excluded (README: unspecified)']
     return rep.finish()
